@@ -97,6 +97,15 @@ def trap_schedules(out, quick=False):
         if scn is None or not script:
             raise tlc.MachineryError("could not extract a counterexample from %s" % cfg)
         traps.append((scn, up, script, cfg))
+    wd = tlc.prepare_workdir("Mechanic", "mechstale")
+    res = tlc.run_tlc(wd, "MC_Mechanic", "Mechanic.stale.cfg", timeout=600, allow_violation=True, workers=4)
+    if res.invariant_violated != "StartedOnlyWhenAll":
+        raise tlc.MachineryError("self-test failed: Mechanic.stale.cfg (StaleAcks=TRUE) violates %s instead of StartedOnlyWhenAll" % res.invariant_violated)
+    out.extra["model_selftest_stale_acks"] = (
+        "pinned variant StaleAcks=TRUE (a second StartEngine right after a failed start, before the failed attempt has drained) violates "
+        "StartedOnlyWhenAll in the model: confirmations of the failed attempt are counted for the new one; excluded from the checked "
+        "environment (assumption), reproduced by hand on the real actors"
+    )
     out.extra["model_selftest"] = (
         "pinned variant (LeaveFix=FALSE: Dispatcher calls self.start_sender(...) on a remote daemon's departure) violates NoStall "
         "(thorough tier: and the liveness properties Answered / FaultLeadsToFailure) in the model, as expected"
@@ -185,7 +194,8 @@ def run_traces(ctx, out, jobs, label, chunk=80):
                 stats["ext"] += bool(cy["scn"]["ext"])
                 stats["preserve"] += bool(cy["scn"]["preserve"])
                 if i > 0:
-                    key = "%s->%s" % ("external" if cycles[i - 1]["scn"]["ext"] else "provisioned", "external" if cy["scn"]["ext"] else "provisioned")
+                    prev = "failed-start" if "BenchmarkFailure" in cycles[i - 1]["box"] else ("external" if cycles[i - 1]["scn"]["ext"] else "provisioned")
+                    key = "%s->%s" % (prev, "external" if cy["scn"]["ext"] else "provisioned")
                     stats["reuse"][key] = stats["reuse"].get(key, 0) + 1
             trace = tr.trace(tid)
         finally:
@@ -275,8 +285,11 @@ def run(ctx, out):
         "<= 3 hosts (coordinator host + 2 remote daemons) x 2 ports, target lists of <= 3 entries in the model, <= 4 in random runs",
         "reuse: one MechanicActor serves a history of <= 3 lifecycles (StartEngine .. EngineStopped, then the next StartEngine with another "
         "configuration); the next StartEngine is sent only after everything of the finished lifecycle has drained (no message in flight, "
-        "node actors exited, no delayed ResetRelativeTime wake-up of the MechanicActor still pending); a lifecycle with a fault ends the "
-        "history (race control tears the actors down); observations and L1 clauses are per lifecycle, dispatchers of earlier lifecycles "
+        "node actors exited, no delayed ResetRelativeTime wake-up of the MechanicActor still pending); after a FAILED START "
+        "(BenchmarkFailure before EngineStarted) race control either tears the actors down or asks the same MechanicActor to start a "
+        "Rally-provisioned cluster again, the latter only once nothing of the failed attempt can reach the MechanicActor any more (no message "
+        "in flight, its dispatcher no longer subscribed to convention updates); the failed attempt's dispatcher and node actors live on, "
+        "forgotten, until the MechanicActor exits and are not judged any more; observations and L1 clauses are per lifecycle, dispatchers of earlier lifecycles "
         "stay alive and idle until the MechanicActor exits",
         "liveness is checked on the model under weak fairness of actors, race control and awaited daemons; on the real code a hang is a "
         "recorded state in which no delivery, wake-up or environment step that counts as progress is enabled and race control has "
@@ -321,7 +334,7 @@ def run(ctx, out):
     out.extra["runs_livelock"] = total["livelock"]
     out.extra["runs_by_number_of_lifecycles"] = total["lifecycles"]
     out.extra["reuse_transitions"] = total["reuse"]
-    for key in ("external->provisioned", "provisioned->external", "provisioned->provisioned", "external->external"):
+    for key in ("external->provisioned", "provisioned->external", "provisioned->provisioned", "external->external", "failed-start->provisioned"):
         if total["reuse"].get(key, 0) == 0:
             out.vacuous.append("reuse:" + key)
     out.extra["node_processes_not_alive"] = total["proc"]
